@@ -515,6 +515,60 @@ func loop3Family(full bool) []Pat {
 	return finalize("LOOP3", trees, map[string]bool{}, false)
 }
 
+// ---- GROW: group loops whose iterations push enough frames to make the backtracking stack grow while an atomic
+// group, a lookaround or a conditional test is open (those save a stack position when they open and restore it
+// when they close), followed by something that fails and sends the engine back to an earlier choice point ----
+
+func growFamily() []Pat {
+	bodies := []*Node{alt(capg(lit('a')), capg(lit('b'))), litStr("ab"), capg(litStr("ab")), alt(lit('a'), lit('b')), cat(capg(lit('a')), rep(capg(lit('b')), 0, 1, false))}
+	pres := []*Node{rep(anyc(), 0, -1, true), nil, rep(set(false, 'a', 'b'), 0, -1, true)}
+	sufs := []*Node{lit('c'), litStr("xc"), nil}
+	var trees []*Node
+	for _, b := range bodies {
+		for _, lazy := range []bool{false, true} {
+			loop := rep(&Node{K: KGroup, Kids: []*Node{b}}, 0, -1, lazy)
+			wraps := []*Node{atomicg(loop), look(true, false, loop), look(true, true, cat(loop, lit('x'))), capg(loop), loop,
+				{K: KCondExp, Kids: []*Node{loop, lit('a'), lit('b')}}, look(false, false, loop)}
+			for _, w := range wraps {
+				for _, pr := range pres {
+					for _, sf := range sufs {
+						trees = append(trees, cat(pr, w, sf))
+					}
+				}
+			}
+		}
+	}
+	var keep []*Node
+	for _, t := range trees {
+		if inC01Fragment(t) {
+			keep = append(keep, t)
+		}
+	}
+	return finalize("GROW", keep, map[string]bool{}, false)
+}
+
+// growInputs: u^n v for short units u, n up to 12, and short tails v.
+func growInputs() [][]rune {
+	var out [][]rune
+	seen := map[string]bool{}
+	for _, u := range []string{"ab", "a", "ba"} {
+		for _, n := range []int{0, 1, 2, 4, 5, 6, 8, 9, 10, 12} {
+			for _, v := range []string{"", "c", "xc", "x", "bxc"} {
+				s := ""
+				for i := 0; i < n; i++ {
+					s += u
+				}
+				s += v
+				if !seen[s] {
+					seen[s] = true
+					out = append(out, []rune(s))
+				}
+			}
+		}
+	}
+	return out
+}
+
 // ---- LOOK ----
 
 func lookFamily(c01only bool) []Pat {
